@@ -335,10 +335,14 @@ class CSSImportRule(cssrule.CSSRule):
 
         self._styleSheet = importedSheet
 
+    def _setHrefChecked(self, href):
+        self._checkReadonly()
+        self._setHref(href)
+
     _href = None  # needs to be set
     href = property(
         lambda self: self._href,
-        _setHref,
+        _setHrefChecked,
         doc="Location of the style sheet to be imported.",
     )
 
@@ -377,6 +381,7 @@ class CSSImportRule(cssrule.CSSRule):
 
     def _setName(self, name=''):
         """Raises xml.dom.SyntaxErr if name is not a string."""
+        self._checkReadonly()
         if name is None or isinstance(name, str):
             # "" or '' handled as None
             if not name:
